@@ -1,4 +1,6 @@
 import Ypv.Lemmas.Doc
+import Ypv.Lemmas.EvalKwLoc
+import Ypv.Lemmas.WriteSim
 /-!
 # C02 — every result locates its node
 
@@ -11,7 +13,7 @@ and parent / parentref / ancestry / path sections have the chain structure of `c
 
 NOT proved (`path_reresolves`, PARTIAL): that the reported path *text* re-parses (parser model, with
 `escape_path_section` quoting) to segments that select exactly the address.  Full statement:
-  theorem path_reresolves : Loc d n c → select mt dsc (parse (dotted c.path)) (d, root) = [(n, c)]
+  theorem path_reresolves : Loc d n c → select mt dsc rt (parse (dotted c.path)) (d, root) = [(n, c)]
     (or every sibling bearing the anchor when the last section is `[&name]`)
 Missing: the composition with the parser lemmas `parse_escapeSection` (C08, another builder).  It is
 checked on the real code for every generated result (re-query through the real parser and
@@ -82,15 +84,15 @@ theorem Loc.from {d n : Node} {c : Ctx} (h : Loc d n c) : From Ctx.root c := by
   | root => exact From.start
   | child r pr sec m _ _ _ ih => exact From.child r pr sec ih
 
-variable {mt : Matcher} {dsc : Desc}
+variable {mt : Matcher} {dsc : Desc} {rt : Node}
 
 /-- **Every result locates its node.**  For a well-formed document `d` (distinct keys), every real
 result `(n, c)` of `_get_required_nodes` from the root — and every member of a virtual slice result —
 is a *located node*: its coordinates were built from the root by steps each leading from the parent
 node to the child node under the reported reference. -/
-theorem results_located {d : Node} (hd : d.WF) (segs : List ESeg) :
-    ∀ r ∈ (required mt dsc segs (.real (d, Ctx.root))).1, ResLoc d r :=
-  allResLoc_required hd segs (.real (d, Ctx.root)) Loc.root
+theorem results_located {d : Node} (hd : d.WF) (segs : List ESeg) (hk : ∀ s ∈ segs, s.isKeyword = false) :
+    ∀ r ∈ (required mt dsc rt segs (.real (d, Ctx.root))).1, ResLoc d r :=
+  allResLoc_required hd segs hk (.real (d, Ctx.root)) Loc.root
 
 /-- **coords_sound**: the address of a located node resolves to that very node; it is the root
 (no parent, no reference), or its reported parent address resolves to a node `P` in which the
@@ -146,11 +148,54 @@ theorem ancestry_is_chain {d n : Node} {c : Ctx} (h : Loc d n c) :
         simp [hp]
 
 /-- The chain facts for the results of a query. -/
-theorem required_coords_chain {d : Node} (hd : d.WF) (segs : List ESeg) (n : Node) (c : Ctx)
-    (h : Res.real (n, c) ∈ (required mt dsc segs (.real (d, Ctx.root))).1) : From Ctx.root c :=
-  Loc.from (results_located (mt := mt) (dsc := dsc) hd segs _ h)
+theorem required_coords_chain {d : Node} (hd : d.WF) (segs : List ESeg) (hk : ∀ s ∈ segs, s.isKeyword = false)
+    (n : Node) (c : Ctx)
+    (h : Res.real (n, c) ∈ (required mt dsc rt segs (.real (d, Ctx.root))).1) : From Ctx.root c :=
+  Loc.from (results_located (mt := mt) (dsc := dsc) (rt := rt) hd segs hk _ h)
 
 example : From Ctx.root (Ctx.root.child (.key (.str ['a'])) (.key (.str ['a'])) ['a']) := From.child _ _ _ From.start
+
+/-- **Coordinates re-resolve.**  For a well-formed document without twin keys, every real result
+`(n, c)` of a query (keyword segments aside): the segments naming its reported references — a key
+or set member by its text, a list element by its index as reported (possibly negative) —, one per
+ancestry entry, evaluated from the document root select exactly `n`, once, at the address `c.addr`. -/
+theorem coords_reresolve {d : Node} (hd : d.WF) (hc : W1.docClear d = true) (segs : List ESeg)
+    (hk : ∀ s ∈ segs, s.isKeyword = false) (n : Node) (c : Ctx)
+    (h : Res.real (n, c) ∈ (required mt dsc rt segs (.real (d, Ctx.root))).1) (mt' : Matcher) (dsc' : Desc) :
+    ∃ c', required mt' dsc' d (W1.pathSegs c) (.real (d, Ctx.root)) = Gen.one (.real (n, c')) ∧ c'.addr = c.addr :=
+  W1.coords_reresolve_loc mt' dsc' d hd
+    (W1.locClear_of_loc (results_located (mt := mt) (dsc := dsc) (rt := rt) hd segs hk _ h) hc)
+
+/-- **The canonical path text re-resolves** (PARTIAL — see the header for the full statement and the
+missing hypothesis `str(result.path) = write false (W1.pathSegsS c)`).  For a located node of a
+well-formed document without twin keys whose keys the notation can express (`wfSegs`: no empty key,
+no `*` inside, no leading `&`), the dot-notation text `write false (W1.pathSegsS c)` parses to segments
+which, evaluated from the root, select exactly that node at its address. -/
+theorem path_reresolves_partial {d n : Node} {c : Ctx} (hd : d.WF) (hc : W1.docClear d = true) (hl : Loc d n c)
+    (hwf : wfSegs (W1.pathSegsS c) = true) (mt' : Matcher) (dsc' : Desc) :
+    ∃ sg, parseWith false true (write false (W1.pathSegsS c)) = .ok sg ∧
+      ∃ c', required mt' dsc' d (sg.map ESeg.ofSeg) (.real (d, Ctx.root)) = Gen.one (.real (n, c')) ∧ c'.addr = c.addr := by
+  refine ⟨W1.pathSegsS c, ?_, ?_⟩
+  · simpa using Sim.parseWith_write false true (W1.pathSegsS c) hwf
+  · rw [W1.pathSegsS_eseg]
+    exact W1.coords_reresolve_loc mt' dsc' d hd (W1.locClear_of_loc hl hc)
+
+/-! The excluded key classes, with witnesses: twin keys (`{1: x, '1': y}`: the path `1` finds the
+string key), and the keys the notation cannot write. -/
+example : W1.docClear (.map none [(.int 1, .scalar none .null), (.str ['1'], .scalar none .null)]) = false := by
+  decide +kernel
+example : (required (fun _ _ _ => .ok true) Desc.none (.scalar none .null) [.key ['1']]
+    (.real (.map none [(.int 1, .scalar none (.int 7)), (.str ['1'], .scalar none (.int 8))], Ctx.root))).1.map
+      (fun r => match r with | .real x => x.2.addr | .virt _ => [])
+    = [[.key (.str ['1'])]] := by decide +kernel
+example : W1.docClear (.set none [.int 1, .str ['1']]) = false := by decide +kernel
+example : wfSegs [((.key, .str []) : Seg)] = false := by decide +kernel
+example : wfSegs [((.key, .str ['a', '*']) : Seg)] = false := by decide +kernel
+example : wfSegs [((.key, .str ['&', 'a']) : Seg)] = false := by decide +kernel
+/-- … and the hypotheses are met by keys full of punctuation. -/
+example : wfSegs [((.key, .str "a.b [c]".toList) : Seg), (.index, .int (-1))] = true := by decide +kernel
+example : W1.docClear (.map none [(.int 1, .seq none [.scalar none .null]), (.str ['a'], .set none [.int 1, .str ['2']])]) = true := by
+  decide +kernel
 
 /-- The hypotheses are met: a well-formed document and a located result at depth 2. -/
 example : (Node.map none [(.str ['a'], .seq none [.scalar none (.int 1)])]).WF := by
